@@ -12,7 +12,7 @@ from .harness import (build, make_point, exc_name, exc_origin, run_paths, partit
 from .values import SymNum, ComplexVal, Obj
 from .regions import IV, samples_in
 from . import spec
-from .algebra import compare_terms
+from .algebra import compare_terms, has_head
 
 E = math.e
 
@@ -85,6 +85,29 @@ def depth1_instances(model, tier: str):
             for ar in range(0, 4 if tier == "quick" else 5):
                 out.append(((k, kids[:ar]), k))
     return out, [k for k in names if k not in spec.ALL_CLASSES]
+
+
+CONSTANT_VALUES = (-2, -1, -0.5, 0, 0.5, 1, 2, 2.0, 2.5, 3)
+
+
+def constant_child_instances(model, tier: str):
+    """Binary and n-ary classes with a Constant in each argument position, over the value
+    classes the package's guards distinguish (negative / -1 / 0 / fractional / 1 / integral >= 2 in
+    both spellings / non-integral > 2)."""
+    names = [c.name for c in model.concrete_expression_classes()]
+    x = ("Variable", "x")
+    out = []
+    for k in names:
+        for v in CONSTANT_VALUES:
+            c = ("Constant", v)
+            if k in spec.BINARY:
+                out.append(((k, x, c), f"{k}<_,Constant>"))
+                out.append(((k, c, x), f"{k}<Constant,_>"))
+            elif k in spec.NARY:
+                out.append(((k, [x, c]), f"{k}<_,Constant>"))
+                if tier != "quick":
+                    out.append(((k, [c, x, x]), f"{k}<Constant,_,_>"))
+    return out
 
 
 PARTIAL_CHILD = [("Reciprocal", 1), ("Logarithm", 1), ("NthRoot", 1), ("Divide", 2), ("Power", 2)]
@@ -193,7 +216,13 @@ def eval_case(args):
                 signs = spec.signs_from_valuation({k: iv for k, iv in val.items() if not iv.is_point()})
                 verdict, wit = compare_terms(got_term, want, signs, region_env=region_env(val))
                 r["got"] = repr(v)
-                if verdict == "equal":
+                if has_head(got_term, "round") and verdict != "equal":
+                    # the value returned on this path is a rounded (piecewise constant) function of the
+                    # inputs: never the real-arithmetic value on a whole region
+                    r.update(status="value-differs", imprecise=False,
+                             witness=wit if verdict == "differ" else {"at": "any non-integer point", "values": [0.0, 0.0]},
+                             quantised=True)
+                elif verdict == "equal":
                     r["status"] = "ok"
                 elif verdict == "differ":
                     r.update(status="value-differs", witness=wit)
